@@ -12,6 +12,7 @@ use std::sync::OnceLock;
 pub const MAX_NT: usize = 7;
 pub const MAX_T: usize = 6;
 pub const MAX_VARIANTS: usize = 4;
+pub const MAX_MANY_VARIANTS: usize = 12;
 pub const MAX_FIELDS: usize = 4;
 pub const MAX_WIDE_FIELDS: usize = 14;
 pub const MAX_EDITS: usize = 6;
@@ -48,7 +49,9 @@ pub fn raw_fs() -> impl Strategy<Value = RawFs> {
 }
 
 pub fn raw_nt() -> impl Strategy<Value = RawNt> {
-    (any::<bool>(), vec(raw_fs(), 0..=MAX_VARIANTS)).prop_map(|(is_enum, variants)| RawNt { is_enum, variants })
+    // mostly at most MAX_VARIANTS variants; 1 enum in 12 has up to MAX_MANY_VARIANTS (two-digit variant / rule indices within one type)
+    (any::<bool>(), prop_oneof![11 => vec(raw_fs(), 0..=MAX_VARIANTS), 1 => vec(raw_fs(), (MAX_VARIANTS + 1)..=MAX_MANY_VARIANTS)])
+        .prop_map(|(is_enum, variants)| RawNt { is_enum, variants })
 }
 
 pub fn raw_grammar() -> impl Strategy<Value = RawGrammar> {
@@ -483,7 +486,10 @@ impl RawGrammar {
         let mut nts = vec![];
         for _ in 0..n_nts {
             let is_enum = b.u8() & 1 == 1;
-            let nv = b.len(MAX_VARIANTS);
+            let nv = match b.u8() {
+                x if x < 236 => x as usize % (MAX_VARIANTS + 1),
+                x => MAX_VARIANTS + 1 + (x as usize - 236) % (MAX_MANY_VARIANTS - MAX_VARIANTS),
+            };
             let mut variants = vec![];
             for _ in 0..nv {
                 let form = b.u8() % 3;
